@@ -110,6 +110,14 @@ class Ctx:
         except subprocess.TimeoutExpired:
             raise Infra("harness timed out: " + " ".join(cmd))
         if p.returncode != 0 or not os.path.exists(out):
+            crash = go_crash_in_repo(p.stderr)
+            if crash:
+                # a panic nobody can recover (a goroutine started by pprof itself) or a fatal runtime error raised from
+                # pprof's own code killed the harness process: that is behaviour of the real code, not of the machinery
+                self.violate("process", "process-crash:" + crash[0],
+                             "the process died in pprof code (%s) while running %s:\n%s" % (crash[0], os.path.basename(binary), crash[1]),
+                             {"harness": os.path.basename(binary), "args": cmd[1:]})
+                raise Crashed("harness process killed by a crash in %s" % crash[0])
             raise Infra("harness failed (%d): %s\n%s" % (p.returncode, " ".join(cmd), (p.stdout + p.stderr)[-4000:]))
         with open(out) as f:
             s = json.load(f)
@@ -303,6 +311,39 @@ class Ctx:
             print("scratch kept at", self.scratch, file=sys.stderr)
 
 
+class Crashed(Infra):
+    """The harness process was killed by a crash inside the code under test (a violation has been recorded)."""
+
+
+def go_crash_in_repo(stderr):
+    """If stderr holds a Go panic / fatal error whose first frame inside the repository is NOT harness code, return
+    (function, excerpt); else None."""
+    m = re.search(r"(?m)^(panic: .*|fatal error: .*)$", stderr or "")
+    if not m:
+        return None
+    tail = stderr[m.start():]
+    fn = None
+    lines = tail.splitlines()
+    for i, ln in enumerate(lines):
+        fm = re.match(r"^\t(\S+\.go):\d+", ln)
+        if not fm:
+            continue
+        path = fm.group(1)
+        if "/runtime/" in path or path.startswith(os.path.join(os.environ.get("GOROOT", "/usr/local/go"), "")):
+            continue
+        if "github.com/google/pprof" in (lines[i - 1] if i else "") or path.startswith(REPO):
+            if "/internal/zzverif/" in path:
+                return None          # the harness itself is at fault: an infrastructure problem
+            fn = re.sub(r"\([^()]*\)$", "", lines[i - 1].strip()) if i else path
+            fn = fn.replace("github.com/google/pprof/", "")
+            break
+        if "/internal/zzverif/" in path:
+            return None
+    if not fn:
+        return None
+    return fn, tail[:1500]
+
+
 def load_known(prop):
     path = os.path.join(VERIF, "known_findings.json")
     if not os.path.exists(path):
@@ -428,6 +469,9 @@ def main(run_fn, prop):
     ctx = Ctx(prop, a.tier, seed, keep=a.keep)
     try:
         status = run_fn(ctx, a.replay)
+    except Crashed as e:
+        ctx.notes.append(str(e))
+        status = ctx.finish("exploration")
     except Infra as e:
         print("INFRA %s: %s" % (prop, e), file=sys.stderr)
         status = 2
